@@ -680,9 +680,9 @@ def gen_b(rng, runner='serial', nproc=0):
     # stock helper actions of doit.tools shared by tasks that are ready at the same time: several independent tasks
     # start with create_folder on the SAME missing path (nested), then write a file into it.  (The gated os calls let
     # python-actions of different threads overlap; an action that writes to sys.stdout WITHOUT capture while another
-    # thread has swapped sys.stdout is C17's open finding stdout-overlap-threads, not C08's subject: no uncaptured
-    # python output in these cases.)
-    if rng.random() < 0.5 and not any(t.get('io') == 'false' for t in tasks):
+    # thread has swapped sys.stdout is C17's open finding stdout-overlap-threads, not C08's subject: no task with
+    # io capture None / False or verbosity 2 (output also written to the shared stream) in these cases.)
+    if rng.random() < 0.5 and not any(t.get('io') in ('false', 'none') or t.get('verbosity') == 2 for t in tasks):
         path = rng.choice(['build', 'build/sub', 'out/a/b'])
         for i in range(rng.randint(2, 3)):
             tasks.append(_bt('mk%d' % i, 70 + i, actions=[_act(t='mkdir', path=path),
@@ -876,7 +876,7 @@ def sig_premature_group_status(w):
     serial runner when X is defined before the group), compares the saved dict of sub-task results with the result of
     the placeholder (None) and re-executes X, the other run finds X up-to-date.  Recognised: the case has a pre-run, the
     ONLY differences are the report of such consumers X (skip_uptodate on one side, success on the other) and the
-    reporter-visible data of that execution; DB dump, files, exit code and every other task agree."""
+    reporter-visible data (and teardowns) of that execution; DB dump, files, exit code and every other task agree."""
     case = w.get('case') or {}
     if case.get('fam') != 'B' or not case.get('prerun') or not w.get('diff'):
         return False
@@ -891,7 +891,8 @@ def sig_premature_group_status(w):
             reexec.add(d[1])
     if not reexec:
         return False
-    return all(d[0] == 'reports' or (d[0] == 'data' and d[1] in reexec) for d in w['diff'])
+    return all(d[0] == 'reports' or (d[0] in ('data', 'teardowns') and d[1] in reexec)
+               or (d[0] == 'teardowns' and d[1] == 'cleanup_errors') for d in w['diff'])
 
 
 def sig_unpicklable_result_hangs(w):
@@ -1059,7 +1060,9 @@ def eval_group(case, variants, st, shrink_s=8.0, accept=True, den=True):
         if crash_only:
             st.count('pair_checked_crash')
             st.count('pair_checked_crash:%s:%s' % (case['badvalue'], c['runner']))
-            if (ref['exit'], ref['err']) == (s['exit'], s['err']):
+            # the exit code is what the property names; the error class is derived by the harness from stderr and is
+            # compared only when both runs have one (a hang shows as exit None)
+            if ref['exit'] == s['exit'] and (ref['err'] == s['err'] or None in (ref['err'], s['err'])):
                 continue
             wit = {'case': _strip(base), 'variant': {'runner': c['runner'], 'nproc': c['nproc'], 'policy': c.get('policy'),
                                                      'schedule': o.get('schedule')}, 'crash_only': True,
@@ -1929,7 +1932,7 @@ def replay(ctx, data):
         print('parallel stderr:', vo['stderr'][-400:])
     if not r['complete'] and w.get('crash_only'):
         print('the serial run ends with an internal error (a value that can not be saved): compared are exit code and error class')
-        same = (r['exit'], r['err']) == (s['exit'], s['err'])
+        same = r['exit'] == s['exit'] and (r['err'] == s['err'] or None in (r['err'], s['err']))
         print('same end under the %s runner: %s' % (var['runner'], same))
         return same
     if not r['complete']:
